@@ -151,3 +151,55 @@ def walk_join_obligations(repo):
                         )
                     )
     return out
+
+
+HASH_ENUM_OVERRIDES = {
+    # class -> why its own enumeration covers everything Dir.__iter__ (a recursive glob) yields
+    "S3FileSystem": "lists every object below the prefix (C30.7 bounds it to the directory); the S3 glob enumerates the same keys",
+}
+
+
+def dir_hash_enumeration_obligations(repo):
+    """The base FileSystem.iter_file_hashes hashes `for file in Dir(path)`: the hashed member set is the iterated member set by construction.
+    A subclass that enumerates on its own must cover at least what the recursive glob behind Dir.__iter__ yields; os.walk without
+    followlinks=True does not (the glob follows symlinked sub-directories), so members listed by `for f in Dir(..)` would be left out of the hash
+    and out of is_valid().  Yields (construct, ok, message, rel, line)."""
+    from .core import AnalysisError, FuncNode
+
+    out = []
+    m = repo.mod("redun/file.py")
+    base = m.func("FileSystem.iter_file_hashes")
+    ok = any(isinstance(n, ast.For) and isinstance(n.iter, ast.Call) and call_name(n.iter) == "Dir" for n in ast.walk(base)) and any(isinstance(n, ast.Yield) and src(n.value).endswith(".hash") for n in ast.walk(base))
+    out.append((f"{m.rel}:FileSystem.iter_file_hashes:iterates-Dir", ok, "the generic directory hash no longer hashes exactly the files that iterating the Dir yields", m.rel, base.lineno))
+    for cm, c in repo.subclasses(m.cls("FileSystem")):
+        if c.name == "FileSystem":
+            continue
+        ov = next((st for st in c.body if isinstance(st, FuncNode) and st.name == "iter_file_hashes"), None)
+        if ov is None:
+            out.append((f"{cm.rel}:{c.name}:iter_file_hashes:inherited", True, "", cm.rel, c.lineno))
+            continue
+        if c.name in HASH_ENUM_OVERRIDES:
+            out.append((f"{cm.rel}:{c.name}:iter_file_hashes:override", True, "", cm.rel, ov.lineno))
+            continue
+        walks = [x for x in ast.walk(ov) if isinstance(x, ast.Call) and (call_name(x) or "").endswith("os.walk")]
+        if walks:
+            for w in walks:
+                fl = next((k.value for k in w.keywords if k.arg == "followlinks"), None)
+                follows = isinstance(fl, ast.Constant) and fl.value is True
+                out.append(
+                    (
+                        f"{cm.rel}:{c.name}:iter_file_hashes:os.walk",
+                        follows,
+                        f"{c.name}.iter_file_hashes enumerates with `{src(w)}`, which does not descend into symlinked sub-directories, while Dir.__iter__ (recursive glob) does: "
+                        "files under such a link are listed, copied and returned as members of the Dir but are not part of its hash, so deleting or rewriting one leaves the recorded hash equal "
+                        "to the fresh one and a cached Dir result is replayed",
+                        cm.rel,
+                        w.lineno,
+                    )
+                )
+            continue
+        if any(isinstance(n, ast.For) and isinstance(n.iter, ast.Call) and call_name(n.iter) in ("Dir", "glob_file") for n in ast.walk(ov)):
+            out.append((f"{cm.rel}:{c.name}:iter_file_hashes:override", True, "", cm.rel, ov.lineno))
+            continue
+        raise AnalysisError(f"{c.name}.iter_file_hashes enumerates directory members in a way this analysis does not know (not Dir(..)/glob_file, os.walk or a listed override)", f"{c.name}.iter_file_hashes")
+    return out
